@@ -67,6 +67,8 @@ def compare_terms(t1, t2, nrows, pens):
         out.append(("pen", "pen left as %r incremental vs %r from scratch" % (pens.strs[t1.pen], pens.strs[t2.pen]), None))
     if t1.aw != t2.aw or t1.pending != t2.pending:
         out.append(("autowrap", "autowrap state differs", None))
+    if t1.modes != t2.modes:
+        out.append(("modes", "terminal modes (alternate screen / bracketed paste / mouse / cursor shape) %r after incremental rendering, %r after drawing from scratch" % (t1.modes, t2.modes), None))
     done = False
     for y in range(0, nrows):
         for x in range(t1.W):
